@@ -181,6 +181,12 @@ structure InvG (strict : Bool) (w : Workload) (s : State) : Prop where
   set_pp : s.alive = true → ∀ i, (s.fut i).ppc = .setting ∨ (s.fut i).ppc = .locked → s.setter = some i
   rdy_set : s.alive = true → s.ready = true → s.setter ≠ none ∧ ∀ i, s.setter = some i → (s.fut i).ppc = .locked ∨ (s.fut i).ppc = .done
   ev_set : s.alive = true → s.evSet = if s.ready then 1 else 0
+  /-- no wake-up is lost: a zero counter has a setter, the setter sets the flag before it leaves -/
+  locked_rdy : s.alive = true → ∀ i, (s.fut i).ppc = .locked → s.ready = true
+  set_done : s.alive = true → ∀ i, s.setter = some i → (s.fut i).ppc = .done → s.ready = true
+  cnt0 : s.alive = true → s.hi - s.lo ≠ 1 → s.counter = 0 → s.setter ≠ none ∨ s.wpc = .unlockRet false
+  one_set : s.alive = true → s.hi - s.lo = 1 → ∀ i, (s.fut i).g = .decd → s.setter = some i
+  final_rc : s.wpc = .held true ∨ s.wpc = .asleep true → s.sub2done = false → s.rc = 0
   /-- the decided return value -/
   clean : ∀ b, s.wpc = .unlockRet b →
     ∀ i, (s.fut i).g ≠ .inn ∧ (s.fut i).g ≠ .taken ∧ (s.fut i).ppc ≠ .setting ∧ (s.fut i).ppc ≠ .locked
@@ -197,6 +203,11 @@ structure InvG (strict : Bool) (w : Workload) (s : State) : Prop where
   attfail : ∀ i, s.wpc = .attFail i → (s.fut i).word = .result
   got_inv : ∀ i, s.wpc = .gotRep i → i = s.fi ∧ s.lo = s.fi ∧ s.calls = [] ∧ s.w.fin i = .get ∧ s.inGet = true
   inget_fin : s.inGet = true → s.alive = true → s.w.fin s.fi = .get
+  fi_le : s.fi ≤ s.w.n
+  calls_sub : ∀ c, c ∈ s.calls → c ∈ w.calls
+  hi_le : (∀ c, c ∈ w.calls → c.hi ≤ w.n) → s.alive = true → s.hi ≤ s.w.n
+  fi_lt : (∃ i, s.wpc = .att i ∨ s.wpc = .attCas i ∨ s.wpc = .attFail i ∨ s.wpc = .gotRep i) ∨
+    (s.inGet = true ∧ s.alive = true) → s.fi < s.w.n
   /-- every result is delivered at most once, to the consumer that asked for it -/
   todo : ∀ i, s.fi ≤ i → (s.fut i).ndel = 0 ∧ (s.fut i).word ≠ .cont ∧ (s.fut i).ppc ≠ .fire
   fire_res : ∀ i, (s.fut i).ppc = .fire → (s.fut i).word = .result
